@@ -11,6 +11,7 @@ import (
 
 	resourcetypes "github.com/projecteru2/core/resource/types"
 	coretypes "github.com/projecteru2/core/types"
+	"github.com/projecteru2/core/verifrt"
 
 	"verif/sim/simrt"
 )
@@ -399,6 +400,13 @@ func (cluH) Execute(c *Case, res *Result) {
 	sim.KeepTrace = traceWanted
 	w := newCluWorld(sim, res, c.Property, cfg, c.Seed)
 	defer w.cleanup()
+	if c.Property == "C34" {
+		// the yield points inserted into calcium's goroutine bodies (scratch copy) become
+		// scheduler steps: goroutines of one operation can be stopped between a call that
+		// goes through the pool or the store and the statement that follows it
+		verifrt.Tick = func() { _ = sim.Seam(nil, "yield", "calcium", false) }
+		defer func() { verifrt.Tick = nil }()
+	}
 	if c.Property == "C30" {
 		// C30 quantifies over engine outcomes for logs, wait and exit codes: only those
 		// engine calls are failed by injection (plus the scripted Behaviour of each node)
